@@ -1,6 +1,7 @@
 package main
 
 import (
+	"strings"
 	"encoding/json"
 	"fmt"
 	"github.com/aml-org/amf-custom-validator/pkg/config"
@@ -45,6 +46,10 @@ func genC03(g *G, n int, out io.Writer) {
 			// any text is a name: pieces from the hostile alphabet (quotes, escapes, separators, BMP and astral code points)
 			c.ProfileName = g.pick([]string{"P", "Règles ", "规则 "}) + g.hostile(4)
 		}
+		rawTabs := g.coin(0.2)
+		if rawTabs {
+			c.ProfileName += g.pick([]string{"\tcolumn", " a\tb ", "\t"})
+		}
 		// 0..5 validations, each a small formula; names may look like keys of the profile language
 		nv := g.n(6)
 		rg := &ruleGen{g: g, nAtoms: len(c.Atoms), nPaths: len(c.Paths), used: map[string]int{}}
@@ -54,7 +59,11 @@ func genC03(g *G, n int, out io.Writer) {
 			if g.coin(0.3) {
 				cls = NS + "U"
 			}
-			c.Validations = append(c.Validations, Validation{Name: names[v], Class: cls, Rule: rg.rule(g.n(3))})
+			name := names[v]
+			if g.coin(0.2) {
+				name = fmt.Sprintf("n%d", v) + g.hostile(3) // any text is a validation name (quotes, tabs, non-ASCII ...)
+			}
+			c.Validations = append(c.Validations, Validation{Name: name, Class: cls, Rule: rg.rule(g.n(3))})
 		}
 		c.Levels = map[string][]string{}
 		for _, l := range levelNames {
@@ -70,8 +79,10 @@ func genC03(g *G, n int, out io.Writer) {
 					}
 				}
 			}
-			if g.coin(0.2) {
-				lst = append(lst, "ghost") // listed but not defined
+			if g.coin(0.25) {
+				// listed but not defined, at any position of the list
+				at := g.n(len(lst) + 1)
+				lst = append(lst[:at], append([]string{"ghost"}, lst[at:]...)...)
 			}
 			c.Levels[l] = lst
 		}
@@ -85,6 +96,10 @@ func genC03(g *G, n int, out io.Writer) {
 		if g.coin(0.12) {
 			c.Config.Time = g.pick([]string{"0001-01-01T00:00:00Z", "1970-01-01T00:00:00Z", "9999-12-31T23:59:59Z"})
 		}
+		if g.coin(0.2) {
+			// an instant with a fraction of a second: the report shows whole seconds (the fraction is cut, never rounded up)
+			c.Config.Time = strings.Replace(c.Config.Time, "Z", g.pick([]string{".5Z", ".999999999Z", ".000000001Z", ".49Z"}), 1)
+		}
 		c.Entry = []int{2, 3, 2, 3, 0, 1}[i%6]
 		c.Debug = g.coin(0.15)
 		if c.Entry < 2 {
@@ -95,6 +110,10 @@ func genC03(g *G, n int, out io.Writer) {
 		}
 		prof := ProfileSpec{Name: c.ProfileName, Atoms: c.Atoms, Paths: c.Paths, Validations: c.Validations, Levels: c.Levels}
 		c.Profile = prof.Render()
+		if rawTabs && !strings.Contains(c.Profile, "\\\\") {
+			// tab characters written raw inside the double-quoted scalars instead of as the escape \t (the same YAML value)
+			c.Profile = strings.ReplaceAll(c.Profile, "\\t", "\t")
+		}
 		c.Data = c.Graph.RenderFlat()
 		enc.Encode(c)
 	}
